@@ -344,7 +344,9 @@ def iteration_hook(case, check_c03=True, check_c04=True):
                          % (o.nfits, k, en, len(groups)))
                     continue
                 idx = groups[en]
-                xk = remove_scaling(mdl.xpt(k, abs_coordinates=True), mdl.scaling_changes)
+                # with projections the absolute position of a stored point is *recomputed* by the projection routine each time
+                # it is asked for (see the known finding 'reprojected-solution' of C03): positions are not compared there
+                xk = o.calls[idx[0]][0] if case.get("proj") else remove_scaling(mdl.xpt(k, abs_coordinates=True), mdl.scaling_changes)
                 if float(np.max(np.abs(xk - o.calls[idx[0]][0]))) > tol:
                     fail(o, "C03.iter_label", "iteration %d: interpolation point %d is labelled evaluation point %d but x differs by %r"
                          % (o.nfits, k, en, float(np.max(np.abs(xk - o.calls[idx[0]][0])))))
